@@ -373,6 +373,12 @@ fn main() {
             }
         }
         groups.sort_by_key(|g| (g.0, g.3.min(1) + g.1 + g.2, g.3, g.1, g.2));
+        if ctx.quick() {
+            // a thin slice with 5 trusted peers (the smallest population in which two agreed
+            // headers can have different support: 3 + 2), placed before the large nT=4 groups
+            let at = groups.iter().position(|g| g.0 == 4).unwrap_or(groups.len());
+            groups.insert(at, (5, 0, 0, 0));
+        }
         let mut rep = Report::new();
         let mut completed: Vec<Value> = vec![];
         for (nt, nu, nd, mode) in groups {
@@ -384,7 +390,11 @@ fn main() {
             // rotation orders only; the full permutation set runs with (nu,nd,mode)=(0,0,0)
             // and (2,1,1).  thorough: full permutations for every group with <= 4 peers.
             let full = if ctx.quick() && nt == 4 && !matches!((nu, nd, mode), (0, 0, 0) | (2, 1, 1) | (1, 0, 3)) { 3 } else { 4 };
-            let ords = orders(nt, full);
+            let ords = if ctx.quick() && nt == 5 {
+                vec![vec![0u8, 1, 2, 3, 4], vec![4u8, 3, 2, 1, 0]]
+            } else {
+                orders(nt, full)
+            };
             let asg = assignments(nt);
             let cases: Vec<Case> = asg
                 .iter()
@@ -404,7 +414,7 @@ fn main() {
         &ctx,
         rep,
         Spec {
-            rule: "nT in 1..=4 (quick) / 1..=5 (thorough) connected trusted peers x nU in 0..=2 connected untrusted peers (first archival) x nD in 0..=1 disconnected trusted peers x caller mode {1 caller; 2nd caller before tick / after tick / after first response (nT>=2)} x all 7^nT assignments of {A@10,A'@10,B@11,C@12,two-headers,invalid-header,failure} to the trusted peers x response orders (all nT! permutations for nT<=4 [quick, nT=4: only for (nU,nD,mode) in {(0,0,0),(2,1,1),(1,0,3)}, else the rotations of the identity and its reverse]; nT=5: rotations of identity and reverse); rounds without a valid report are followed by a second round answered B@11 by every peer; distinct = (nT,nU,nD,mode,assignment,order); non-trivial = at least two different valid reports, or one valid report mixed with unusable answers",
+            rule: "nT in 1..=4 (quick) / 1..=5 (thorough) connected trusted peers x nU in 0..=2 connected untrusted peers (first archival) x nD in 0..=1 disconnected trusted peers x caller mode {1 caller; 2nd caller before tick / after tick / after first response (nT>=2)} x all 7^nT assignments of {A@10,A'@10,B@11,C@12,two-headers,invalid-header,failure} to the trusted peers x response orders (all nT! permutations for nT<=4 [quick, nT=4: only for (nU,nD,mode) in {(0,0,0),(2,1,1),(1,0,3)}, else the rotations of the identity and its reverse]; nT=5: rotations of identity and reverse; quick additionally runs the slice nT=5,(nU,nD,mode)=(0,0,0) with the identity order and its reverse before the nT=4 groups); rounds without a valid report are followed by a second round answered B@11 by every peer; distinct = (nT,nU,nD,mode,assignment,order); non-trivial = at least two different valid reports, or one valid report mixed with unusable answers",
             assumptions: &[
                 "header contents (keys, hashes) come from the repo's random ExtendedHeaderGenerator; the property depends only on height, hash equality and validity",
                 "which of several equally high, equally supported headers wins is not fixed by the statement: any of them is accepted",
